@@ -34,11 +34,23 @@ void run_case(Tape& t, Ctx& ctx, const char* tname) {
     ctx.label("magnitude:tiny-leading-coefficient");
   }
   MatrixType C = model_matrix<DIM, MatrixType>(m);
-  bool via_update = t.flag();
+  // how the object under test came to hold this polynomial: constructor, update of a default-constructed object, or copy-assignment /
+  // update over an object that held ANOTHER polynomial and was already evaluated (every route must then serve the new data)
+  int how = t.pickw({3, 3, 1, 1});
+  bool via_update = (how == 1);
   PP pp_ctor(m.b, C, ncoef);
   PP pp_upd;
-  if (via_update) pp_upd.update(m.b, C, ncoef);
-  const PP& pp = via_update ? pp_upd : pp_ctor;
+  if (how == 1) pp_upd.update(m.b, C, ncoef);
+  else if (how >= 2) {
+    int n2 = 1 + t.range(0, 5), c2 = 1 + t.range(0, maxc - 1);
+    PPModel<DIM> other; other.b = gen_breakpoints(t, n2); gen_coeff_rows(t, other, n2, c2);
+    pp_upd = PP(other.b, model_matrix<DIM, MatrixType>(other), c2);
+    int h2 = 0;
+    for (int k = 0; k <= c2; ++k) { (void)pp_upd.evaluate(other.b[0] + 0.125 * k, k); (void)pp_upd.evaluate(other.b[0], &h2, k); }
+    if (how == 2) pp_upd = pp_ctor; else pp_upd.update(m.b, C, ncoef);
+    ctx.label(how == 2 ? "object:assigned-over-evaluated" : "object:updated-over-evaluated");
+  }
+  const PP& pp = (how == 0) ? pp_ctor : pp_upd;
 
   ctx.label(std::string("type:") + tname);
   ctx.label(nseg < 32 ? "segments<32" : "segments>=32");
@@ -80,7 +92,7 @@ void run_case(Tape& t, Ctx& ctx, const char* tname) {
   if (ctx.want_desc) ctx.desc << ", \"queries\": [";
   for (int q = 0; q < Q; ++q) {
     // time selector
-    int tc = t.pickw({4, 3, 3, 4, 1, 1, 1});
+    int tc = t.pickw({4, 3, 3, 4, 1, 1, 1, 3});
     double tq = 0;
     const char* tcls = "";
     int j = t.range(0, nseg);
@@ -97,6 +109,12 @@ void run_case(Tape& t, Ctx& ctx, const char* tname) {
       }
       case 4: tq = m.b.front() - (1 + t.range(0, 1000)) / 8.0; tcls = "before-first"; break;
       case 5: tq = m.b.back() + (1 + t.range(0, 1000)) / 8.0; tcls = "after-last"; break;
+      case 7: {  // a small offset (2^-10 .. 2^-50 relative, both signs) from any breakpoint, incl. just outside the first and the last one
+        double off = pow2i(-t.range(10, 50)) * (1.0 + std::fabs(m.b[j])) * (1 + t.range(0, 6));
+        tq = t.flag() ? m.b[j] + off : m.b[j] - off;
+        tcls = "breakpoint+-small-offset";
+        break;
+      }
       default: {
         static const double far[] = {1e6, -1e6, 1e12, -1e12, 1e300, -1e300};
         tq = far[t.range(0, 5)]; tcls = "far-outside";
